@@ -1,6 +1,7 @@
 """
 Feedback functions of the Source module
 """
+import re
 import traceback as tb
 from pedal.core.commands import feedback
 from pedal.core.feedback import FeedbackResponse
@@ -97,7 +98,7 @@ class syntax_error(SourceFeedback):
         #if not enhance:
         #    self.message_template = "{traceback_message}\n{exception_message}"
         line_offset = line_offsets.get(filename, 0)
-        exception_message = self.make_exception_message(exception)
+        exception_message = self.make_exception_message(exception, line_offset)
         fields = {'lineno': line + line_offset,
                   'filename': filename,
                   'offset': col_offset,
@@ -113,9 +114,16 @@ class syntax_error(SourceFeedback):
         fields['suggestion_message'] = self.constant_fields['suggestion'].format(**wrap_fields(report.format, fields))
         super().__init__(fields=fields, location=location, **kwargs)
 
-    def make_exception_message(self, exception):
+    def make_exception_message(self, exception, line_offset=0):
         """ Generate a suggestion message based on the exception. """
         base_message = exception.msg
+        if line_offset:
+            # The parser quotes lines of the text it was given ("... after
+            # 'if' statement on line 2"): inside a section that is not the
+            # numbering of the student's file
+            base_message = re.sub(r"\bon line (\d+)",
+                                  lambda found: "on line %d" % (int(found.group(1)) + line_offset),
+                                  base_message)
         base_message = base_message.capitalize() + "."
         #if base_message == "Invalid syntax.":
         #    return ""
